@@ -359,7 +359,7 @@ impl DebugInformation {
         let mut unique_subprograms = HashSet::new();
         let mut result = vec![];
 
-        let possible_lines = &[line, line + 1];
+        let possible_lines = &[line, line.saturating_add(1)];
 
         for &needle_line in possible_lines {
             if !result.is_empty() {
@@ -369,95 +369,56 @@ impl DebugInformation {
             for (unit_idx, file_lines) in &files {
                 let unit = self.unit_ensure(*unit_idx);
 
-                let mut suitable_places_in_unit = vec![];
+                // Every statement of the line in this unit, grouped by the subprogram (function,
+                // generic instance, closure) that contains it. Each subprogram gets one place:
+                // the end of its prologue if the prologue ends on this line, otherwise its first
+                // statement of the line.
+                let mut places_in_unit: Vec<(Option<Key>, PlaceDescriptor)> = vec![];
 
-                let mut i = 0;
-                while i < file_lines.len() {
-                    let mut line_idx = file_lines[i];
-                    let next_line_row = unit.line(line_idx);
-
-                    if suitable_places_in_unit.is_empty() {
-                        // no places found at this point,
-                        // try to find the closest place to a target line
-                        if next_line_row.line != needle_line || !next_line_row.is_stmt() {
-                            i += 1;
-                            continue;
-                        }
-
-                        // now check that there is no prolog end in neighborhood line rows,
-                        // if there is one then take it.
-                        // This sets priority of line rows with PE over other
-                        // line rows at this line as a breakpoint candidate
-                        let mut ahead_idx = i + 1;
-                        loop {
-                            let Some(&ahead_line_idx) = file_lines.get(ahead_idx) else {
-                                break;
-                            };
-
-                            let line_row = unit.line(ahead_line_idx);
-                            if line_row.line != next_line_row.line || !line_row.is_stmt() {
-                                break;
-                            }
-
-                            if line_row.prolog_end() {
-                                line_idx = ahead_line_idx;
-                                i = ahead_idx;
-                                break;
-                            }
-                            ahead_idx += 1;
-                        }
-
-                        if let Some(place) = unit.find_place_by_idx(line_idx) {
-                            suitable_places_in_unit.push(place);
-                        }
-                    } else {
-                        // At least one line is found,
-                        // now try to find lines with the same col and row
-                        // as in found place in source code.
-                        // This covers a case when compiler
-                        // generates multiple representations of a single line, for example, when
-                        // source code line in a part of a template function.
-                        let line = suitable_places_in_unit[0].line_number;
-                        let col = suitable_places_in_unit[0].column_number;
-                        let pe = suitable_places_in_unit[0].prolog_end;
-                        let eb = suitable_places_in_unit[0].epilog_begin;
-                        let es = suitable_places_in_unit[0].end_sequence;
-
-                        if next_line_row.line != line
-                            || next_line_row.column != col
-                            || next_line_row.prolog_end() != pe
-                            || next_line_row.epilog_begin() != eb
-                            || next_line_row.end_sequence() != es
-                            || !next_line_row.is_stmt()
-                        {
-                            i += 1;
-                            continue;
-                        }
-
-                        if let Some(place) = unit.find_place_by_idx(line_idx) {
-                            suitable_places_in_unit.push(place);
-                        }
+                for &line_idx in file_lines {
+                    let line_row = unit.line(line_idx);
+                    if line_row.line != needle_line
+                        || !line_row.is_stmt()
+                        || line_row.end_sequence()
+                    {
+                        continue;
                     }
+                    let Some(place) = unit.find_place_by_idx(line_idx) else {
+                        continue;
+                    };
 
-                    i += 1;
+                    let Some((func, info)) = self.find_function_by_pc(place.address)? else {
+                        // do we need place if we cant find a function?
+                        places_in_unit.push((None, place));
+                        continue;
+                    };
+                    let key = Key {
+                        name: info.name.clone(),
+                        range: func.ranges(),
+                    };
+                    // only one place for a single unique subprogram is allowed
+                    if unique_subprograms.contains(&key) {
+                        continue;
+                    }
+                    match places_in_unit
+                        .iter_mut()
+                        .find(|(k, _)| k.as_ref() == Some(&key))
+                    {
+                        Some((_, chosen)) => {
+                            // priority of line rows with PE over other line rows at this line
+                            if place.prolog_end && !chosen.prolog_end {
+                                *chosen = place;
+                            }
+                        }
+                        None => places_in_unit.push((Some(key), place)),
+                    }
                 }
 
-                for suitable_place in suitable_places_in_unit {
-                    // only one place for a single unique subprogram is allowed
-                    // to apply this rule as a filter for all places
-                    if let Some((func, info)) = self.find_function_by_pc(suitable_place.address)? {
-                        let key = Key {
-                            name: info.name.clone(),
-                            range: func.ranges(),
-                        };
-                        if !unique_subprograms.contains(&key) {
-                            unique_subprograms.insert(key);
-                            result.push(suitable_place);
-                        }
-                    } else {
-                        // do we need place if we cant find a function?
-                        result.push(suitable_place);
+                for (key, place) in places_in_unit {
+                    if let Some(key) = key {
+                        unique_subprograms.insert(key);
                     }
+                    result.push(place);
                 }
             }
         }
